@@ -90,6 +90,20 @@ def literal_stream(tier, rng):
                         zc = "none" if z == "" else "Z" if z == "Z" else "offset"
                         yield f"time:hms{'f' if f else ''}:{zc}" + \
                             (":leap" if s == 60 else ""), t
+    # every (second, millisecond) pair: whole milliseconds are within every
+    # dialect's precision, whatever binary fraction they are nearest to
+    k = 0
+    for sec in range(60):
+        for ms in range(1000):
+            k += 1
+            if tier == "quick" and k % 13:
+                continue
+            t = datespec.render_time((sec * 7 + ms) % 24, ms % 60, sec, f"{ms:03d}",
+                                     ("", "Z")[k % 2])
+            if k % 5 == 0:
+                yield "datetime:doy:" + ("none", "Z")[k % 2], "2001-034T" + t
+            else:
+                yield "time:hmsf:" + ("none", "Z")[k % 2], t
     for _ in range(6000 if tier == "quick" else 400000):
         y = rng.choice(YEARS + (rng.randint(1, 9999),))
         d = dt.date(y, 1, 1) + dt.timedelta(days=rng.randint(0, 364))
